@@ -50,6 +50,7 @@ BODY_CLASSES = [
     "empty_object", "unrelated_keys", "json_array", "json_number", "json_string", "json_true", "json_null",
     "empty_body", "html", "torn", "flipped_byte", "invalid_utf8", "bom_prefixed", "utf16", "data_scalar", "data_list",
     "whitespace_padded", "errors_same_message", "data_empty_object", "data_false", "data_empty_and_empty_errors", "empty_errors_null_data", "errors_null_probe", "errors_string_probe",
+    "errors_drawn",
 ]
 QUICK_STATUSES = [200, 201, 204, 299, 100, 199, 300, 301, 304, 400, 401, 404, 429, 500, 502, 503, 599]
 VIAS = ["execute", "get_item", "list_items", "ping", "create_item", "search_now"]
@@ -88,6 +89,33 @@ def make_body(cls: str, data: Any, knob: int) -> bytes:
         return J({"errors": [{"message": "Not authorized", "path": ["users", 0, "email"]},
                              {"message": "Not authorized", "path": ["users", 2, "email"], "extensions": {"code": "FORBIDDEN"}},
                              {"message": "Not authorized", "path": ["users", 0, "email"]}][: 2 + knob % 2], "data": data})
+    if cls == "errors_drawn":
+        # spec-shaped errors (every entry is an object carrying a string message) with everything else the spec leaves
+        # open drawn from the knob: empty / blank / long / repeated messages, members present, null or empty, odd extras
+        import random as _r
+        rr = _r.Random(knob)
+        msgs = ["", " ", "boom", "boom", "ü\u2028 \"q\"", "x" * 300, "0", "null", "Not authorized"]
+        errs = []
+        for _ in range(1 + rr.randrange(5)):
+            e: Dict[str, Any] = {"message": rr.choice(msgs)}
+            if rr.random() < 0.5:
+                e["locations"] = rr.choice([[{"line": 1, "column": 1}], [], None, [{"line": 3, "column": 9}, {"line": 4, "column": 1}]])
+            if rr.random() < 0.5:
+                e["path"] = rr.choice([["a"], [], None, ["a", 0, "b", 12], [0]])
+            if rr.random() < 0.5:
+                e["extensions"] = rr.choice([{}, None, {"code": "X"}, {"message": "inner", "errors": []}, {"n": [1, {"k": None}]}])
+            if rr.random() < 0.3:
+                e[rr.choice(["original", "data", "errors", "msg", "Message", "self", "cls"])] = rr.choice([None, 0, "v", {"a": 1}, []])
+            errs.append(e)
+            if rr.random() < 0.15:
+                errs.append(dict(e))
+        doc: Dict[str, Any] = {"errors": errs}
+        k = rr.randrange(5)
+        if k < 4:
+            doc["data"] = [data, None, {}, []][k]
+        if rr.random() < 0.2:
+            doc["extensions"] = {"trace": 1}
+        return J(doc)
     if cls == "data_empty_object":
         return J({"data": {}})
     if cls == "data_false":
